@@ -12,11 +12,10 @@ from vlib import Check, ensure_theory, probe_json, props_assumptions
 
 PID = 'C20'
 THEOREMS = ['C20_export_faithful', 'C20_export_faithful_history', 'C20_export_faithful_refuted',
-            'C20_export_access_refuted']
+            'C20_export_access_old_refuted']
 HDR = mlib.HEADER.replace('Sem.Export.', 'Sem.Export Sem.ExportProofs Sem.ExportRun.') + 'Require Import GC20.Logics.\n'
 
 K_ANTI = 'Frame._get_predicate_data_values/unassigned-F-anti-extension'
-K_SERIAL = 'SerialAccess.enforce/world-without-frame-not-exported'
 
 
 # ------------------------------------------------------------------ Gallina literals
@@ -65,13 +64,13 @@ def impl_clauses(L: dict, obs: dict):
         Rw = sorted(int(w) for w in dump['R'])
         Rp = sorted((int(w), w2) for w, ws in dump['R'].items() for w2 in ws)
         if d['worlds'] != Rw or [tuple(p) for p in d['access']] != Rp:
-            key = K_SERIAL if L['access'] == 'SerialAccess' else 'BaseModel.get_data/worlds-or-access-differ-from-R'
+            key = 'BaseModel.get_data/worlds-or-access-differ-from-R'
             bad.append((key, f'exported worlds {d["worlds"]} / access {d["access"]} but R has worlds {Rw} and pairs {Rp}',
                         dict(worlds=d['worlds'], access=d['access'], R_worlds=Rw, R_pairs=Rp)))
         if d['worlds'] != sorted(d['worlds']) or d['access'] != sorted(d['access']):
             bad.append(('BaseModel.get_data/unsorted', 'exported worlds / access not sorted', dict()))
     if obs.get('data_after') != d:
-        key = K_SERIAL if L['access'] == 'SerialAccess' else 'BaseModel.get_data/changes-after-value_of'
+        key = 'BaseModel.get_data/changes-after-value_of'
         bad.append((key, 'get_data() differs after evaluating sentences at exported worlds '
                     f'(worlds before {d["worlds"]}, after {obs["data_after"]["worlds"] if isinstance(obs["data_after"], dict) else obs["data_after"]})',
                     dict(before=d['worlds'])))
@@ -128,8 +127,6 @@ def run(args) -> int:
         chk.obligation(f'{L["name"]}:unassigned value is F or N (P+ exact)', L['unassigned'] in ('F', 'N'))
         chk.obligation(f'{L["name"]}:anti-extension exact (unassigned N, or no anti-extension exported)',
                        L['unassigned'] == 'N' or not L['many_valued'])
-        chk.obligation(f'{L["name"]}:every world of R has a frame after finish (access class adds no world)',
-                       L['access'] != 'SerialAccess')
     chk.assumptions = props_assumptions(PID)
     chk.theorems = THEOREMS
     # ---- cases -------------------------------------------------------------------------
@@ -193,8 +190,7 @@ def run(args) -> int:
         k = json.dumps(src, sort_keys=True)
         if k in first and first[k][1] != r['data']:
             L = by_name[src['logic']]
-            key = ('cpl.Model.finish/order-dependent-export' if L['hooks']['finish'] == 'cpl'
-                   else 'BaseModel.get_data/order-dependent')
+            key = 'BaseModel.get_data/order-dependent'
             chk.violation(key, f'{src}: get_data() differs between order seeds {first[k][0]} and {order}',
                           dict(src, clause='order', orders=[first[k][0], order]))
         first.setdefault(k, (order, r['data']))
@@ -208,8 +204,7 @@ def run(args) -> int:
         exprs.append(f'export_case ML_{i} {cstate(r["dump"])} {cxdata(r["data"])}')
         idx.append((n, 'dump'))
         if src['kind'] == 'direct':
-            fixed = 'true' if (L['hooks']['finish'] == 'cpl' and L.get('classical_fixed')) else 'false'
-            exprs.append(f'export_case_ops {fixed} ML_{i} {mlib.clist(mlib.cop(o) for o in src["ops"])} '
+            exprs.append(f'export_case_ops ML_{i} {mlib.clist(mlib.cop(o) for o in src["ops"])} '
                          f'{mlib.cnats(r["cord"])} {mlib.cpord(r["pord"])} {cxdata(r["data"])}')
             idx.append((n, 'ops'))
     answers = mlib.coq_eval(PID, HDR, exprs, name='Cases', shard=max(40, len(exprs) // 16 + 1), timeout=2400)
@@ -257,10 +252,9 @@ def run(args) -> int:
                     'not proved as an invariant of the setters']
     chk.notes['explanation'] = (
         'obligations = per logic the regenerated facts that select the clauses of export_faithful that apply '
-        '(unassigned value in {F,N}: P+ exact; unassigned N or two-valued: P- exact; access class adds no world: '
-        'worlds/access exact); an undischarged obligation marks a logic for which the corresponding clause is '
-        'refuted (C20_export_faithful_refuted / C20_export_access_refuted) and reported as known finding with the '
-        'concrete model')
+        '(unassigned value in {F,N}: P+ exact; unassigned N or two-valued: P- exact); an undischarged obligation '
+        'marks a logic for which the anti-extension clause is refuted (C20_export_faithful_refuted) and reported as '
+        'known finding with the concrete model; worlds/access = R is a theorem for every access class')
     return chk.finish()
 
 
